@@ -1,10 +1,15 @@
 import FV.Proofs.Netlist
+import FV.Proofs.StogInst
 /-
   C05 — a loaded netlist matches its definition; ill-formed designs are rejected.
 
   Model: `FV/Model/Netlist.lean` (`parseNetlist stog εA : YVal α → Except Err (Netlist α)`), following the code after
   fixes/C05_one_pin_net.diff.  `stog` (create_stog) and `sqrt` (math.sqrt) are parameters; `εA` is the area tolerance
   `Rectangle._area_epsilon` in force.  Scalars: any linearly ordered field (the driver runs the same code at `Rat`).
+
+  The theorems of Part 1 that mention the STOG step take the hypothesis `StogPerm stog`; each has a corollary
+  `…_createStog` for `stogC06 ε εA`, the C06 model of `create_stog` run on the tagged rectangles, for which `StogPerm`
+  is proved (`FV/Proofs/StogInst.lean`): those corollaries carry no assumption about `create_stog`.
 
   Part 1 — derived quantities equal their definitions (the model computes them with the running sums of the Python
   code; the definitions are written with `List.sum`).
@@ -196,6 +201,42 @@ theorem fixedRectangles_def_flat {t : YVal α} {ms : List (NL.Mod α)} {es : Lis
       simp only [List.filter_cons, hf, Bool.false_eq_true, ↓reduceIte]
       have : m.rects.filter (·.fixed) = [] := List.filter_eq_nil_iff.mpr (fun r hr => by rw [hm r hr, hf]; simp)
       rw [this]; rfl
+
+
+/-! ### the same with the C06 model of `create_stog` as the STOG step (no assumption left about it) -/
+
+theorem area_def_hard_createStog (ε : α) {t : YVal α} {n : Netlist α}
+    (h : parseNetlist (stogC06 ε εA) εA t = .ok n) {m : NL.Mod α} (hm : m ∈ n.modules) (hh : m.hard = true) :
+    m.areaRegions = [("_", (m.rects.map NRect.area).sum)] ∧ m.area = (m.rects.map NRect.area).sum :=
+  area_def_hard (stogPerm_stogC06 ε εA) h hm hh
+
+theorem area_def_terminal_createStog (ε : α) {t : YVal α} {n : Netlist α}
+    (h : parseNetlist (stogC06 ε εA) εA t = .ok n) {m : NL.Mod α} (hm : m ∈ n.modules) (ht : m.terminal = true)
+    (hr : m.rects = []) : m.area = 0 :=
+  area_def_terminal (stogPerm_stogC06 ε εA) h hm ht hr
+
+theorem center_def_createStog (ε : α) {t : YVal α} {n : Netlist α}
+    (h : parseNetlist (stogC06 ε εA) εA t = .ok n) {m : NL.Mod α} (hm : m ∈ n.modules) (hr : m.rects ≠ []) :
+    m.center = some ((m.rects.map fun r => r.area * r.cx.val).sum / (m.rects.map NRect.area).sum,
+                     (m.rects.map fun r => r.area * r.cy.val).sum / (m.rects.map NRect.area).sum) :=
+  center_def (stogPerm_stogC06 ε εA) h hm hr
+
+theorem rectangles_def_createStog (ε : α) {t : YVal α} {n : Netlist α}
+    (h : parseNetlist (stogC06 ε εA) εA t = .ok n) :
+    ∃ ms es, parseDoc t = .ok (ms, es) ∧ loadRectangles (stogC06 ε εA) εA t = .ok (ms.flatMap (·.rects)) ∧
+      List.Forall₂ (fun (m : NL.Mod α) (m0 : NL.Mod α) => m.name = m0.name ∧
+        (m.rects.map NRect.resetLoc).Perm (m0.rects.map NRect.resetLoc)) n.modules ms :=
+  rectangles_def (stogPerm_stogC06 ε εA) h
+
+theorem rectangle_flags_createStog (ε : α) {t : YVal α} {n : Netlist α}
+    (h : parseNetlist (stogC06 ε εA) εA t = .ok n) {m : NL.Mod α} (hm : m ∈ n.modules) {r : NRect α}
+    (hr : r ∈ m.rects) : r.fixed = m.fixed ∧ r.hard = m.hard :=
+  rectangle_flags (stogPerm_stogC06 ε εA) h hm hr
+
+theorem fixedRectangles_def_createStog (ε : α) {t : YVal α} {n : Netlist α}
+    (h : parseNetlist (stogC06 ε εA) εA t = .ok n) :
+    n.fixedRectangles = (n.modules.filter (·.fixed)).flatMap (·.rects) :=
+  fixedRectangles_def (stogPerm_stogC06 ε εA) h
 
 /-- `HyperEdge.wire_length`: the weight times the sum of the distances from the member centres to their mean. -/
 theorem netWireLength_def (sqrt : α → α) (cs : List (α × α)) (w : α) :
